@@ -96,6 +96,11 @@ impl UnitResult {
             if v > *e {
                 *e = v;
             }
+        } else if k.starts_with("min_") {
+            let e = self.stats.entry(k.to_string()).or_insert(i64::MAX);
+            if v < *e {
+                *e = v;
+            }
         } else {
             *self.stats.entry(k.to_string()).or_insert(0) += v;
         }
